@@ -782,6 +782,40 @@ func genC01(cw *caseWriter, seed uint64, tier string) {
 		to := randCols(r, 0, true, true)
 		emitEmit(cw, "C01", to, apiValue(r, to, true), true)
 	}
+	// nested rows and cells handed through the API under a column of EVERY format — rows that render, and rows that
+	// cannot be rendered (a NaN inside, a numeric cell holding "12,5", a boolean cell holding "perhaps", an invalid
+	// json.Number two levels down): a row that cannot be rendered yields an error and no bytes, whatever the column
+	nested := []func() interface{}{
+		func() interface{} { rr := jsonline.NewRow(); rr.Set("q", 1); rr.Set("b", "z"); return rr },
+		func() interface{} { rr := jsonline.NewRow(); rr.Set("ratio", math.NaN()); return rr },
+		func() interface{} { rr := jsonline.NewRow(); rr.SetValue("n", jsonline.NewValueNumeric("12,5")); return rr },
+		func() interface{} { rr := jsonline.NewRow(); rr.SetValue("ok", jsonline.NewValueBoolean("perhaps")); rr.Set("x", 1); return rr },
+		func() interface{} {
+			in := jsonline.NewRow()
+			in.Set("deep", json.Number("1e"))
+			rr := jsonline.NewRow()
+			rr.Set("a", 1)
+			rr.Set("in", in)
+			return rr
+		},
+		func() interface{} { return jsonline.NewValueNumeric("12,5") },
+		func() interface{} { return jsonline.NewValueBoolean("perhaps") },
+		func() interface{} { return jsonline.NewValue(math.Inf(-1), jsonline.Numeric, nil) },
+		func() interface{} { return jsonline.NewRow() },
+	}
+	for _, f := range fmtNames {
+		for _, mk := range nested {
+			mk := mk
+			to := []colDesc{{name: "id", format: "numeric", ty: "none"}, {name: "payload", format: f, ty: "none"}}
+			emitEmit(cw, "C01", to, func() interface{} { return map[string]interface{}{"id": 1, "payload": mk()} }, true)
+			emitEmit(cw, "C01", to, func() interface{} {
+				rr := jsonline.NewRow()
+				rr.Set("id", 1)
+				rr.Set("payload", mk())
+				return rr
+			}, true)
+		}
+	}
 	// long lines around the buffer sizes a writer or reader might use (4 KiB bufio default, 64 KiB scanner
 	// buffer; thorough: 1 MiB): still exactly one write; a row rejected on a late column still writes nothing
 	sizes := []int{4000, 4090, 4095, 4096, 4097, 5000, 8192, 65535, 65536, 70000}
